@@ -233,3 +233,22 @@ Qed.
 (** a mined row never contributes: every dead id belongs to some unmined row *)
 Lemma dead_has_unmined_row : forall txs sc x, Dead txs sc x -> exists t, In t txs /\ t_id t = x /\ unmined t.
 Proof. intros txs sc x D. destruct D as [t I U _ | t d I U _ _]; exists t; tauto. Qed.
+
+(** The dead set does not depend on the ORDER of the rows: for two states holding the same rows
+    in any order the loop computes the same set (one forward pass would not). *)
+From Coq Require Import Permutation.
+Lemma Dead_perm : forall txs txs' sc x, Permutation txs txs' -> Dead txs sc x -> Dead txs' sc x.
+Proof.
+  intros txs txs' sc x P D. induction D as [t I U S | t d I U Hd D IH].
+  - apply Dead_seed; [eapply Permutation_in; eassumption | exact U | exact S].
+  - eapply Dead_dep; [eapply Permutation_in; eassumption | exact U | exact Hd | exact IH].
+Qed.
+
+Theorem dead_set_order_independent : forall s s' tg x, Permutation (m_txs s) (m_txs s') ->
+  mem x (dead_set s tg) = mem x (dead_set s' tg).
+Proof.
+  intros s s' tg x P.
+  destruct (mem x (dead_set s tg)) eqn:A; destruct (mem x (dead_set s' tg)) eqn:B; try reflexivity.
+  - apply dead_set_sound in A. apply (Dead_perm _ _ _ _ P) in A. apply dead_set_complete in A. congruence.
+  - apply dead_set_sound in B. apply (Dead_perm _ _ _ _ (Permutation_sym P)) in B. apply dead_set_complete in B. congruence.
+Qed.
